@@ -198,4 +198,58 @@ def c20(pid, tier, replay):
     return simple.run_simple(pid, tier, plan, replay)
 
 
-CHECKS = {"C19": c19, "C20": c20, "C18": c18, "C13": n13, "C14": n13, "C08": g08, "C09": g09, "C10": g09, "C11": g11, "C12": g12, "C15": g15, "C16": g16}
+ASSUME_TR = [
+    "strings are atoms for the specification; text fidelity is checked on a pool of ASCII, multi-byte, combining, RTL and emoji "
+    "strings that JSON carries without escapes",
+    "the carry tables in Translate.tla are facts of SPDX 2.3 / CycloneDX 1.4 / 1.5, not read from the code",
+    "the writer's output is decoded independently with encoding/json only",
+]
+TR_KEYS = ("w1", "r1", "w2", "r2", "wire", "doc1", "doc2")
+
+
+def tr(pid, tier, replay, own, modes, design, rule):
+    big = tier != Q
+    jobs = []
+    for mode, nq, nt, shards in modes:
+        for i in range(shards):
+            jobs.append({"cmd": ["tr-run", "--mode", mode, "--n", str(nt if big else nq), "--seed", str(seed() * 100 + i)],
+                         "label": "%s-%d" % (mode, i)})
+    plan = {
+        "module": "TraceTranslate", "cfg": "TraceTranslate.cfg", "own": own, "design": design, "jobs": jobs,
+        "replay_cmd": lambda path: ["tr-run", "--replay", path],
+        "result_keys": TR_KEYS, "nontrivial": lambda e: len(e.get("doc", {}).get("node_list", {}).get("nodes", [])) > 0,
+        "rule": rule, "assumptions": ASSUME_TR,
+    }
+    return simple.run_simple(pid, tier, plan, replay)
+
+
+def c01(pid, tier, replay):
+    return tr(pid, tier, replay, r"^(rt\.spdx\..*|total\.spdx23\..*)$", [("spdx", 132, 1320, 8)],
+              [("TrSPDX", "TrSPDX_quick.cfg", 900)] if tier == Q else
+              [("TrSPDX", "TrSPDX_attrs.cfg", 3000), ("TrSPDX", "TrSPDX_graph.cfg", 3000)],
+              "seeded documents of the SPDX-representable class: 1-5 nodes with unique valid SPDX ids, packages and files, "
+              "every carried attribute present with probability 0.1/0.5/0.9, sweeps over all 44 relationship types, 16 "
+              "checksum algorithms, 12 purposes, 8 reference types, 4 identifier types; arbitrary edges (cycles, self loops, "
+              "several per source and type, repeated targets), any root subset; indents 0/1/4/8; written, decoded "
+              "independently, read with auto-detection, twice")
+
+
+def c02(pid, tier, replay):
+    return tr(pid, tier, replay, r"^(rt\.cdx\..*|total\.cdx1[45]\..*)$", [("cdx", 120, 1200, 8)],
+              [("TrCDX", "TrCDX_quick.cfg" if tier == Q else "TrCDX_thorough.cfg", 3000)],
+              "seeded single-rooted containment trees of 1-6 nodes (chains of maximal depth, random trees, flat), contains "
+              "edges stored in random order and random grouping of targets, nodes in random order; CycloneDX-expressible "
+              "attributes with probability 0.1/0.5/0.9, sweeps over component types, hash algorithms, reference types of the "
+              "spec version; serial, version, lifecycles; CycloneDX 1.4 and 1.5 alternately; indents 0/1/4/8")
+
+
+def c03(pid, tier, replay):
+    return tr(pid, tier, replay, r"^xl\..*$", [("free", 60, 600, 6), ("fixtures", 21, 210, 4), ("spdx", 40, 400, 1), ("cdx", 40, 400, 1)],
+              [("TrSPDX", "TrSPDX_quick.cfg", 900), ("TrCDX", "TrCDX_quick.cfg", 900)],
+              "arbitrary well-formed documents (several purposes, dependsOn and other edges between arbitrary nodes, DAGs, "
+              "cycles, none / one / several roots) written in every registered format (SPDX 2.3, CycloneDX 1.0-1.5); plus "
+              "sub-graphs (4-24 nodes) sampled from seven real SBOMs of the repository parsed with protobom and written in "
+              "the other formats; the output is decoded with encoding/json only and read back with the format stated")
+
+
+CHECKS = {"C01": c01, "C02": c02, "C03": c03, "C19": c19, "C20": c20, "C18": c18, "C13": n13, "C14": n13, "C08": g08, "C09": g09, "C10": g09, "C11": g11, "C12": g12, "C15": g15, "C16": g16}
